@@ -430,7 +430,7 @@ func suiteC18(c *Ctx) {
 				}
 			}
 		}
-		c.emit(Case{"producers", g.steps, false})
+		c.emit(Case{"producers", g.steps, g.chance(0.3)})
 	}
 }
 
